@@ -181,6 +181,16 @@ def run(prop, tier, seed, replay=None):
     corr_error = None
     try:
         ops = list(mod.corr(ctx))
+        if ctx.thorough:
+            # thorough tier: the whole correspondence again under further seeds (other random members, patterns, tables)
+            base_seed = ctx.seed
+            nseeds = int(os.environ.get("VERIF_THOROUGH_SEEDS", "3"))
+            for i in range(1, nseeds):
+                ctx.seed = base_seed + 1000 * i
+                ctx.rng = random.Random(ctx.seed * 7919 + sum(map(ord, prop)))
+                ops += list(mod.corr(ctx))
+            ctx.seed = base_seed
+            ctx.extra["correspondence_seeds"] = [base_seed + 1000 * i for i in range(nseeds)]
     except InfraError:
         raise
     except Exception as e:
@@ -260,7 +270,13 @@ def run(prop, tier, seed, replay=None):
             known_lines.append("KNOWN-FINDING: property=%s %s [%s]" % (prop, f["what"], f["id"]))
 
     # ---- 6. evidence
-    nontrivial = {o.line for o in ops if o.nontrivial}
+    # distinct non-trivial cases: a model line is identified by its text; an oracle-only case (neutral placeholder line) by
+    # the configuration it was run on
+    def _key(o):
+        if o.prop_ok is not None and o.info and o.info.get("config") is not None and len(o.line) <= 12:
+            return o.line + "|" + hashlib.sha1(json.dumps(o.info["config"], sort_keys=True, default=str).encode()).hexdigest()[:16]
+        return o.line
+    nontrivial = {_key(o) for o in ops if o.nontrivial}
     obligations = len(names)
     if ok_b:
         discharged = len([a for a in audited if a["ok"]])
